@@ -6,6 +6,10 @@
 //! recorded. Request:
 //!   bfee settlex <accounts 0=none|1=builder|2=other user> <recorded> <escrow> <vault> <times 1|2>
 //!   -> ok <transferred…> | <recorded'> <escrow'> <vault'>   |  err NotProvided|InvalidUser|Transfer
+//!   bfee settlef <recorded> <escrowFinal> <vaultFinal> <escrowOther> <vaultOther> <which 0|1>
+//!   -> ok <transferred> | <recorded'> <escrowFinal'> <vaultFinal'> <escrowOther'> <vaultOther'> | err Mismatched|Transfer
+//!      the order also owns a funded escrow of ANOTHER mint (e.g. its initial collateral); which = 1: a permissionless
+//!      caller passes that other mint, the order's ATA for it and the builder's ATA for it
 //!   bfee hist <escrow0> <vault0> <n> { i <incr> <size> <factor> <pmin> | d <size> <factor> <pmin> <output> | s }*
 //!   -> ok <recorded> <escrow> <vault> | <i:after:fee|i:err|d:recorded|d:err|s:amount|s:err>…
 //! `hist`: ONE order account and ONE escrow/claim-vault pair live through a whole history; increases and
@@ -187,6 +191,60 @@ fn run(t: &[&str]) -> Option<String> {
     Some(format!("ok {} | {} {esc} {vlt}", amts.iter().map(|x| x.to_string()).collect::<Vec<_>>().join(" "), order_after.builder_fee_amount()))
 }
 
+fn run_settlef(t: &[&str]) -> Option<String> {
+    if t.len() != 8 { return None; }
+    let v: Vec<u64> = t[2..8].iter().map(|x| x.parse::<u64>().ok()).collect::<Option<Vec<_>>>()?;
+    let (recorded, esc_a, vlt_a, esc_b, vlt_b, which) = (v[0], v[1], v[2], v[3], v[4], v[5]);
+    if which > 1 { return None; }
+    TRANSFERS.lock().unwrap().clear(); *EVENTS.lock().unwrap() = 0; *SPL_FAILED.lock().unwrap() = false;
+    let sto = gmsol_store::ID;
+    let sys = anchor_lang::system_program::ID;
+    let (store_k, order_k, mint_a, mint_b, builder_k) = (k(21), k(22), k(23), k(27), k(24));
+    let (escrow_a, escrow_b) = (get_associated_token_address(&order_k, &mint_a), get_associated_token_address(&order_k, &mint_b));
+    let (vault_a, vault_b) = (get_associated_token_address(&builder_k, &mint_a), get_associated_token_address(&builder_k, &mint_b));
+    let ev_k = Pubkey::find_program_address(&[b"__event_authority"], &sto).0;
+    let store: Box<Store> = boxed();
+    let mut order: Box<Order> = boxed();
+    // the order records mint A / escrow A as its final output token account
+    c32::order_prepare_for_settlement(&mut order, &store_k, &builder_k, &mint_a, &escrow_a, recorded);
+    let mut user: Box<UserHeader> = boxed();
+    c30::user_init(&mut user, &store_k, &k(26), 255).ok()?;
+    // both token worlds exist and are funded; the caller chooses which one to pass
+    let mut all = vec![
+        Acc::new(escrow_a, spl_token::ID, &token_account(&mint_a, &order_k, esc_a)).writable(),
+        Acc::new(vault_a, spl_token::ID, &token_account(&mint_a, &builder_k, vlt_a)).writable(),
+        Acc::new(escrow_b, spl_token::ID, &token_account(&mint_b, &order_k, esc_b)).writable(),
+        Acc::new(vault_b, spl_token::ID, &token_account(&mint_b, &builder_k, vlt_b)).writable(),
+    ];
+    let (mint_k, ei, vi) = if which == 0 { (mint_a, 0usize, 1usize) } else { (mint_b, 2, 3) };
+    let passed_vault = std::mem::replace(&mut all[vi], Acc::new(k(99), sys, &[]));
+    let passed_escrow = std::mem::replace(&mut all[ei], Acc::new(k(98), sys, &[]));
+    let mut accs = vec![Acc::zc(store_k, sto, &*store), Acc::zc(order_k, sto, &*order).writable(), Acc::new(mint_k, spl_token::ID, &mint_account()),
+        passed_escrow, Acc::zc(builder_k, sto, &*user), passed_vault, Acc::new(spl_token::ID, sys, &[]).exec(), Acc::new(ev_k, sys, &[]), Acc::new(sto, sys, &[]).exec()];
+    let data = gmsol_store::instruction::SettleBuilderFee {}.data();
+    let core = |c: CoreError| -> u32 { c.into() };
+    let r = call_entry(&mut accs, &data);
+    // balances after, whichever pair was passed
+    let bal = |passed: bool, acc_passed: &Acc, acc_kept: &Acc| token_amount(if passed { acc_passed.data() } else { acc_kept.data() });
+    let (ea, va) = (bal(which == 0, &accs[3], &all[0]), bal(which == 0, &accs[5], &all[1]));
+    let (eb, vb) = (bal(which == 1, &accs[3], &all[2]), bal(which == 1, &accs[5], &all[3]));
+    let rec_after = { let o: &Order = bytemuck::from_bytes(&accs[1].data()[8..]); o.builder_fee_amount() };
+    let tr = TRANSFERS.lock().unwrap().clone();
+    let state = format!("{rec_after} {ea} {va} {eb} {vb}");
+    Some(match r {
+        Ok(()) => format!("ok {} | {state}", tr.first().copied().unwrap_or(0)),
+        Err(e) => {
+            let tag = match e {
+                ProgramError::Custom(c) if c == core(CoreError::TokenAccountMismatched) => "err Mismatched".to_string(),
+                _ if *SPL_FAILED.lock().unwrap() => "err Transfer".to_string(),
+                other => format!("err Other({other:?})").replace(' ', ""),
+            };
+            // a rejected call must change nothing
+            if (rec_after, ea, va, eb, vb) != (recorded, esc_a, vlt_a, esc_b, vlt_b) { format!("err Other(rejected-but-changed {state})") } else { tag }
+        }
+    })
+}
+
 fn set_token_amount(a: &mut Acc, amount: u64) {
     let d = &mut bytemuck::cast_slice_mut::<u128, u8>(&mut a.buf)[8..8 + a.len];
     let mut t = spl_token::state::Account::unpack(d).unwrap();
@@ -310,6 +368,9 @@ thread_local! { static HIST_VIOL: std::cell::RefCell<Vec<String>> = const { std:
 
 fn exec(req: &str) -> String {
     let t: Vec<&str> = req.split(' ').collect();
+    if t.get(1) == Some(&"settlef") {
+        return match std::panic::catch_unwind(|| run_settlef(&t)) { Ok(Some(s)) => s, Ok(None) => "bad-op".into(), Err(_) => "panic".into() };
+    }
     if t.get(1) == Some(&"hist") {
         return match std::panic::catch_unwind(|| run_hist(&t)) {
             Ok(Some((s, v))) => { HIST_VIOL.with(|h| *h.borrow_mut() = v); s }
@@ -323,6 +384,27 @@ fn exec(req: &str) -> String {
 /// Property oracle on the implementation (no model): Ok(nt) / Err(violation)
 fn oracle(req: &str, resp: &str) -> std::result::Result<bool, String> {
     let t: Vec<&str> = req.split(' ').collect();
+    if t[1] == "settlef" {
+        // a successful settlement moves tokens of the order's RECORDED final output token only, out of the recorded
+        // final-output escrow only; pointing it at another escrow of the order must be rejected and change nothing
+        let v: Vec<u128> = t[2..8].iter().map(|x| x.parse().unwrap()).collect();
+        let (recorded, esc_a, vlt_a, esc_b, vlt_b, which) = (v[0], v[1], v[2], v[3], v[4], v[5]);
+        if resp == "panic" || resp.starts_with("err Other") { return Err(format!("unexpected {resp}")); }
+        if let Some(rest) = resp.strip_prefix("ok ") {
+            let (a, st) = rest.split_once(" | ").ok_or("malformed")?;
+            let amt: u128 = a.parse().unwrap();
+            let st: Vec<u128> = st.split(' ').map(|x| x.parse().unwrap()).collect();
+            if which == 1 { return Err(format!("settlement accepted the order's escrow of ANOTHER mint: moved {amt} units of the wrong token (other escrow {} -> {}), record {} -> {}, real fee still in the final-output escrow", esc_b, st[3], recorded, st[0])); }
+            if st[3] != esc_b || st[4] != vlt_b { return Err("settlement touched a token account of another mint".into()); }
+            if amt > recorded || amt > esc_a || st[0] != 0 || st[1] + amt != esc_a || st[2] != vlt_a + amt { return Err("settlement on the recorded escrow violates its bounds".into()); }
+            return Ok(amt != 0);
+        }
+        return match resp {
+            "err Mismatched" if which == 1 => Ok(true),
+            "err Transfer" if which == 0 && recorded != 0 && vlt_a + recorded.min(esc_a) > u64::MAX as u128 => Ok(false),
+            _ => Err(format!("settlement failed without cause: {resp}")),
+        };
+    }
     if t[1] == "hist" {
         // violations were collected on the real state after every step of the history
         let v = HIST_VIOL.with(|h| std::mem::take(&mut *h.borrow_mut()));
@@ -381,6 +463,13 @@ fn gen_hist(r: &mut Rng) -> String {
 
 fn gen_req(r: &mut Rng) -> String {
     if r.chance(1, 3) { return gen_hist(r); }
+    if r.chance(1, 4) {
+        let recorded: u64 = match r.below(5) { 0 => 0, 1 => r.num(64) as u64, _ => r.range(1, 1_000_000) };
+        let esc_a: u64 = match r.below(5) { 0 => 0, 1 => recorded.saturating_sub(r.range(1, 10)), _ => recorded.saturating_add(r.range(0, 1_000_000)) };
+        let esc_b: u64 = match r.below(5) { 0 => 0, 1 => recorded / 2, _ => recorded.saturating_add(r.range(0, 1_000_000)) };
+        let vlt = |r: &mut Rng| if r.chance(1, 8) { u64::MAX - r.below(1_000_000) } else { r.range(0, 1_000_000) };
+        return format!("bfee settlef {recorded} {esc_a} {} {esc_b} {} {}", vlt(r), vlt(r), r.below(2));
+    }
     let recorded: u64 = match r.below(6) { 0 => 0, 1 => r.num(64) as u64, 2 => u64::MAX, _ => r.range(1, 1_000_000) };
     let escrow: u64 = match r.below(8) { 0 => 0, 1 => recorded.saturating_sub(r.range(1, 10)), 2 => recorded, 3 => r.num(64) as u64, _ => recorded.saturating_add(r.range(0, 1_000_000)) };
     let vault: u64 = match r.below(6) { 0 => u64::MAX - r.below(1_000_000), 1 => r.num(64) as u64, _ => r.range(0, 1_000_000) };
